@@ -484,6 +484,11 @@ def apply (f : (i : Fin n) → τ i → K σ β) (v : Var n τ) : K σ β := f v
 def apply2 {m : Nat} {υ : Fin m → Type} (f : (i : Fin n) → τ i → (j : Fin m) → υ j → K σ β)
     (v1 : Var n τ) (v2 : Var m υ) : K σ β := f v1.idx v1.val v2.idx v2.val
 
+/-- `apply(function, v1, v2, v3)` -/
+def apply3 {m k : Nat} {υ : Fin m → Type} {ω : Fin k → Type}
+    (f : (i : Fin n) → τ i → (j : Fin m) → υ j → (l : Fin k) → ω l → K σ β)
+    (v1 : Var n τ) (v2 : Var m υ) (v3 : Var k ω) : K σ β := f v1.idx v1.val v2.idx v2.val v3.idx v3.val
+
 /-- `match(v, f_0, …, f_{n-1})`: visit with the function at `index_of<types, decltype(arg)>` -/
 def match_ (v : Var n τ) (fs : (i : Fin n) → τ i → K σ β) : K σ β :=
   apply (fun i x => fs i x) v
